@@ -132,7 +132,7 @@ def _make_backend():
 
 def gen_matrix_spec(rng, n=None):
     n = n or rng.choice([1, 2, 3, 4, 5, 6, 8, 12])
-    return dict(n=n, mseed=rng.randrange(1 << 30), cond=rng.choice(['id', 'well', 'well', 'well', 'ill6', 'ill12', 'singular']), sym=rng.random() < 0.4,
+    return dict(n=n, mseed=rng.randrange(1 << 30), cond=rng.choice(['id', 'well', 'well', 'well', 'ill6', 'ill12', 'singular', 'perm', 'rot']), sym=rng.random() < 0.4,
                 cplx=rng.random() < 0.15, sparse=rng.random() < 0.4)
 
 
@@ -141,6 +141,8 @@ def make_matrix(spec):
     n = spec['n']
     if spec['cond'] == 'id':
         A = numpy.eye(n)
+    elif spec['cond'] in ('perm', 'rot'):
+        A = structured_orthogonal(spec['cond'], n, r)
     else:
         Q1, _ = numpy.linalg.qr(r.randn(n, n))
         Q2, _ = numpy.linalg.qr(r.randn(n, n))
@@ -180,6 +182,35 @@ def make_matrix(spec):
     for i, j, v in spec.get('small', ()):
         A[i % n, j % n] = v
     return A
+
+
+def structured_orthogonal(kind, n, r):
+    '''Exactly representable orthogonal matrices (signed permutations, quarter turns): Krylov spaces built with them break down exactly
+    (orthogonal or repeated search directions), which is where the failure branches of the solvers are.'''
+    A = numpy.zeros((n, n))
+    if kind == 'perm':
+        p = r.permutation(n)
+        A[numpy.arange(n), p] = r.choice([-1., 1.], size=n)
+    else:
+        i = 0
+        while i + 1 < n:
+            A[i, i + 1], A[i + 1, i] = -1., 1.
+            i += 2
+        if i < n:
+            A[i, i] = 1.
+    return A
+
+
+def linparam_A1(spec, A, r):
+    '''Second matrix of the parameter dependent linear systems A + kappa A1.  `r` is the random state after the right hand side was drawn.'''
+    n = spec['n']
+    A1 = r.randn(n, n) * .3
+    a1 = spec.get('a1', 'rand')
+    if a1 in ('torot', 'toperm'):
+        # A + 1 * A1 is a quarter turn / signed permutation: with the factorisation of A kept from an earlier solve the new search directions
+        # are orthogonal to the residual or repeat themselves
+        A1 = structured_orthogonal('rot' if a1 == 'torot' else 'perm', n, numpy.random.RandomState(spec['sseed'] + 1)) - A
+    return A1
 
 
 def gen_faults(rng, ncalls_hint=12, positive_tol=True):
@@ -234,10 +265,63 @@ def gen_solve_op(rng, n):
     return op
 
 
+def vary_solve_op(rng, prev, n):
+    '''The previous solve with ONE ingredient changed: the memo tables of a matrix object (sub-matrix, preconditioner) are keyed on some
+    ingredients and must not serve an entry when another ingredient changed.'''
+    op = copy.deepcopy(prev)
+    what = rng.choice(['cols', 'cols-keep-rows', 'rows', 'rhs', 'solver', 'precon', 'tol', 'lhs0'])
+    prev_rows = list(prev['rmask']) if prev.get('rcons') and prev.get('rmask') else (list(prev['cmask']) if prev['cons'] != 'none' else [False] * n)
+    if what in ('cols', 'cols-keep-rows'):
+        m = list(op['cmask'])
+        if op['cons'] == 'none':
+            op['cons'] = rng.choice(['bool', 'float'])
+        if rng.random() < 0.6 and any(m) and not all(m):
+            # same number of constrained columns, other positions
+            i = rng.choice([k for k in range(n) if m[k]])
+            j = rng.choice([k for k in range(n) if not m[k]])
+            m[i], m[j] = m[j], m[i]
+        else:
+            i = rng.randrange(n)
+            m[i] = not m[i]
+        op['cmask'] = m
+        if what == 'cols-keep-rows':
+            op['rcons'] = True
+            op['rmask'] = prev_rows
+    elif what == 'rows':
+        m = prev_rows[:]
+        if any(m) and not all(m):
+            i = rng.choice([k for k in range(n) if m[k]])
+            j = rng.choice([k for k in range(n) if not m[k]])
+            m[i], m[j] = m[j], m[i]
+        op['rcons'] = True
+        op['rmask'] = m
+    elif what == 'rhs':
+        op['vseed'] = rng.randrange(1 << 30)
+        op['rhs'] = rng.choice(['rand', 'rand', 'zero', 'tiny', 'zerocol'])
+    elif what == 'solver':
+        op['solver'] = 'direct' if op['solver'] == 'arnoldi' else 'arnoldi'
+        op['truncate'] = None
+    elif what == 'precon':
+        op['precon'] = 'diag' if op['precon'] == 'direct' else 'direct'
+        op['truncate'] = None
+    elif what == 'tol':
+        op['atol'] = rng.choice([0., 1e-12, 1e-8, 1e-3])
+        op['rtol'] = rng.choice([0., 0., 1e-8])
+    else:
+        op['lhs0'] = not op['lhs0']
+    return op
+
+
 def gen_system_spec(rng):
     n = rng.choice([1, 2, 3, 4, 6])
     kind = rng.choice(['linear', 'linear', 'linparam', 'cubic', 'cubic', 'mixed3', 'sqrt', 'time', 'time'])
     spec = dict(n=n, kind=kind, mat=gen_matrix_spec(rng, n), sseed=rng.randrange(1 << 30), functional=rng.random() < 0.5, coef=rng.choice([0.1, 1., 10.]))
+    if kind == 'linparam':
+        spec['a1'] = rng.choice(['rand', 'rand', 'torot', 'toperm'])
+        if spec['a1'] != 'rand' and rng.random() < 0.7:
+            spec['mat']['cond'] = rng.choice(['id', 'perm', 'rot'])
+    # one Arnoldi method object serves a whole history: subspace size and the arguments of its inner linear solves vary per history
+    spec['arn'] = dict(maxiter=rng.choice([1, 2, 2, 3, 5]), atol=rng.choice([0., 0., 1e-12, 1e-6, 1e-3]))
     if kind == 'linear' and rng.random() < 0.45 and n > 1:
         # rank-deficient by structure: columns (and, independently, rows) without entries; entries around the drop tolerance
         spec['mat'].update(cond='well', zero_cols=[rng.randrange(n) for _ in range(rng.choice([1, 1, 2]))],
@@ -262,7 +346,7 @@ def gen_system_op(rng, spec):
     else:
         method = rng.choice([None, 'newton', 'newton', 'reuse', 'linesearch', 'linesearch_median', 'minimize', 'pseudotime', 'legacy_newton', 'legacy_minimize', 'legacy_optimize', 'legacy_pseudotime', 'legacy_theta'])
     op = dict(op='solve', method=method, cons=rng.choice(['none', 'none', 'bool', 'float']), cmask=[rng.random() < 0.3 for _ in range(n)],
-              kappa=rng.choice([0., .5, 2., -1.]), guess=rng.choice(['none', 'rand', 'rand', 'far']), vseed=rng.randrange(1 << 30), maxiter=rng.choice([3, 10, 25, 60]), miniter=rng.choice([0, 0, 0, 1, 2]))
+              kappa=rng.choice([0., .5, 1., 1., 2., -1.]), guess=rng.choice(['none', 'rand', 'rand', 'far', 'prev', 'prev']), vseed=rng.randrange(1 << 30), maxiter=rng.choice([3, 10, 25, 60]), miniter=rng.choice([0, 0, 0, 1, 2]))
     op['tol'] = rng.choice([1e-10, 1e-8, 1e-5, 1e-2]) if (not linear or method not in (None, 'direct', 'legacy_linear') or rng.random() < 0.5) else 0.
     if method in ('direct', 'direct_noatol', 'arnoldi', None) and linear:
         op['twice_guess'] = rng.random() < 0.5   # metamorphic: result independent of the initial guess
@@ -285,10 +369,29 @@ def gen_case(rng, index, tier):
     if r < 0.55:
         spec = gen_matrix_spec(rng, rng.choice([16, 24]) if tier == 'thorough' and rng.random() < 0.15 else None)
         ops = [gen_solve_op(rng, spec['n']) for _ in range(rng.choice([1, 2, 3, 4, 6] + ([10] if tier == 'thorough' else [])))]
+        for k in range(1, len(ops)):
+            if rng.random() < 0.45:
+                ops[k] = vary_solve_op(rng, ops[k - 1], spec['n'])
         case = dict(kind='matrix', spec=spec, ops=ops, faults={})
     else:
         spec = gen_system_spec(rng)
         ops = [gen_system_op(rng, spec) for _ in range(rng.choice([1, 1, 2, 3, 5] if spec['kind'] != 'time' else [1, 2, 3, 4, 6]))]
+        for k in range(1, len(ops)):
+            if ops[k - 1]['op'] == 'solve' and rng.random() < 0.4:
+                # the previous solve again with one thing changed (parameter, warm start, constraints): what re-used method objects and memo tables see in practice
+                o = copy.deepcopy(ops[k - 1])
+                what = rng.choice(['kappa', 'guess', 'cmask', 'tol', 'kappa+guess'])
+                if 'kappa' in what:
+                    o['kappa'] = rng.choice([0., .5, 1., 1., 2., -1.])
+                if 'guess' in what:
+                    o['guess'] = 'prev'
+                if what == 'cmask' and spec['n'] > 1:
+                    i = rng.randrange(spec['n'])
+                    o['cmask'][i] = not o['cmask'][i]
+                if what == 'tol' and o.get('tol'):
+                    o['tol'] = o['tol'] * rng.choice([1e-3, 1e3])
+                o['vseed'] = rng.randrange(1 << 30) if rng.random() < 0.5 else o['vseed']
+                ops[k] = o
         case = dict(kind='system', spec=spec, ops=ops, faults={})
     if rng.random() < 0.5:
         case['faults'] = gen_faults(rng, ncalls_hint=rng.choice([3, 8, 20]))
@@ -468,7 +571,7 @@ def build_system(spec):
         vec = fA @ u - fb
         res = lambda U, **k: A @ U - b
     elif kind == 'linparam':
-        A1 = r.randn(n, n) * .3
+        A1 = linparam_A1(spec, A, r)
         kappa = function.Argument('kappa', ())
         vec = (fA + kappa * function.Array.cast(A1)) @ u - fb
         res = lambda U, kappa=0., **k: (A + kappa * A1) @ U - b
@@ -508,7 +611,8 @@ def _method(op, system, spec):
     if m == 'arnoldi':
         # one Arnoldi object per history: it keeps the previous factorisation for reuse when the matrix changes
         if 'arnoldi' not in _STATE:
-            _STATE['arnoldi'] = solver.Arnoldi(maxiter=2)
+            arn = spec.get('arn') or dict(maxiter=2, atol=0.)
+            _STATE['arnoldi'] = solver.Arnoldi(maxiter=arn['maxiter'], **({'atol': arn['atol']} if arn['atol'] else {}))
         return _STATE['arnoldi']
     if m == 'newton':
         return solver.Newton()
@@ -572,6 +676,10 @@ def run_system(case, B):
 def _guess(op, n):
     if op.get('guess', 'none') == 'none':
         return None
+    if op['guess'] == 'prev':
+        # warm start from the solution returned by the previous solve of this history (continuation in a parameter)
+        last = _STATE.get('last_solution')
+        return None if last is None or len(last) != n else last.copy()
     g = _vec(op['vseed'] + 5, (n,))
     return g * (50. if op['guess'] == 'far' else 1.)
 
@@ -657,6 +765,7 @@ def _do_solve(system, resfun, info, spec, op, constrain, cmask, cvals):
     bad = _certify(u, want, resfun, tol, f'solve(method={m})', **resargs)
     if bad:
         return bad, 'return'
+    _STATE['last_solution'] = u.copy()
     if linear and tol == 0 and not PLAN.fired and spec['mat']['cond'] != 'singular' and spec['kind'] != 'linparam':
         with numpy.errstate(all='ignore'):
             r = resfun(u)[numpy.isnan(want)]
